@@ -17,7 +17,7 @@ func init() { checks["C07"] = c07 }
 func c07(args []string) {
 	c := chk.New("C07", "exploration", args)
 	c.Build(false)
-	c.Rule("(a) mixed-cores contention workloads (max in {2,3,4,6}, multisets of task classes with cores in 1..max) with yields of up to 3 ms at slots.before_lock / slots.deposit / slots.release so that token-by-token acquisitions of different tasks interleave whenever the lock does not prevent it: must terminate (structural hang classifier, never elapsed time); (a1) one task waiting more than 10 s for the only slot; (a2) the same with outputs of waiting tasks appearing on disk while they wait (written by sibling tasks): must terminate with every slot given back (shadow counter 0) and every task either run or skipped; (b) rendezvous groups: k tasks with k*cores <= max and nothing else ready must all be inside their command at the same time (each announces itself and waits for k announcements; completion is the witness; on expiry the hook event log decides: a waiter blocked in the slot acquisition although free >= needed is a violation, anything else inconclusive); (b3) two workflows in one program: a task of X waiting for X's only slot must not keep Y's tasks from Y's free slots (one rendezvous group across both); (c) CoresPerTask > max must be refused by the library (exit != 0 with its own message, no command of that process), a Go-runtime deadlock report is not a refusal. distinct_nontrivial = distinct (max, cores multiset, interleaving signature) of contention runs in which >= 2 tasks overlapped their acquisitions' waiting, plus completed rendezvous groups and refusals")
+	c.Rule("(a) mixed-cores contention workloads (max in {2,3,4,6}, multisets of task classes with cores in 1..max) with yields of up to 3 ms at slots.before_lock / slots.deposit / slots.release so that token-by-token acquisitions of different tasks interleave whenever the lock does not prevent it: must terminate (structural hang classifier, never elapsed time); (a1) one task waiting more than 10 s for the only slot; (a3) a streaming-only producer in front of a task that needs every slot, and a Concatenator between tasks with a single slot: must terminate; (a2) the same with outputs of waiting tasks appearing on disk while they wait (written by sibling tasks): must terminate with every slot given back (shadow counter 0) and every task either run or skipped; (b) rendezvous groups: k tasks with k*cores <= max and nothing else ready must all be inside their command at the same time (each announces itself and waits for k announcements; completion is the witness; on expiry the hook event log decides: a waiter blocked in the slot acquisition although free >= needed is a violation, anything else inconclusive); (b3) two workflows in one program: a task of X waiting for X's only slot must not keep Y's tasks from Y's free slots (one rendezvous group across both); (c) CoresPerTask > max must be refused by the library (exit != 0 with its own message, no command of that process), a Go-runtime deadlock report is not a refusal. distinct_nontrivial = distinct (max, cores multiset, interleaving signature) of contention runs in which >= 2 tasks overlapped their acquisitions' waiting, plus completed rendezvous groups and refusals")
 	c.Assume("head-of-line blocking behind a waiting multi-core task is legal: rendezvous groups are homogeneous and run with nothing else ready", "yields only make legal interleavings frequent (Go is preemptive)")
 	rng := c.Rand("c07")
 	type job struct {
@@ -99,6 +99,27 @@ func c07(args []string) {
 	{
 		s, bh := gen.Contention(rng, "longwait", gen.ContentionOpts{Max: 1, Procs: 2, TasksPer: 1, SleepLo: 10600, SleepHi: 10600, CoresFn: func(int) int { return 1 }})
 		jobs = append(jobs, &job{s: s, bh: bh, cfg: Cfg{Buf: 128, Procs: 4, SoftSec: 40}, kind: "mixed"})
+	}
+	// (a3) slots and the rest of the library: a producer that only streams must give its slot back like any other task
+	// (a 2-core task behind it needs both slots), and a bundled component that gathers files must not sit on a slot
+	// while it waits for its inputs (one slot, tasks in front of and behind a Concatenator)
+	{
+		in, o1 := []spec.PortDecl{{Name: "in"}}, []spec.PortDecl{{Name: "out"}}
+		s1 := &spec.Spec{Name: "streamthenbig", MaxTasks: 2, Sources: map[string]string{"t0.txt": "t0\n", "t1.txt": "t1\n"}}
+		s1.Procs = append(s1.Procs, &spec.Proc{Name: "src", Kind: spec.KFileSource, Files: []string{"t0.txt", "t1.txt"}},
+			&spec.Proc{Name: "SPR", Kind: spec.KCmd, Cores: 1, Cmd: spec.BuildCmd("SPR", in, []spec.PortDecl{{Name: "out", Stream: true}}, nil, nil, nil)},
+			&spec.Proc{Name: "SCO", Kind: spec.KCmd, Cores: 1, Cmd: spec.BuildCmd("SCO", in, o1, nil, nil, nil)},
+			&spec.Proc{Name: "BIG", Kind: spec.KCmd, Cores: 2, Cmd: spec.BuildCmd("BIG", in, o1, nil, nil, nil)})
+		s1.Conns = append(s1.Conns, &spec.Conn{From: "src.out", To: "SPR.in"}, &spec.Conn{From: "SPR.out", To: "SCO.in"}, &spec.Conn{From: "SCO.out", To: "BIG.in"})
+		s2 := &spec.Spec{Name: "concatslot", MaxTasks: 1, Sources: map[string]string{"t0.txt": "t0\n", "t1.txt": "t1\n", "t2.txt": "t2\n"}}
+		s2.Procs = append(s2.Procs, &spec.Proc{Name: "src", Kind: spec.KFileSource, Files: []string{"t0.txt", "t1.txt", "t2.txt"}},
+			&spec.Proc{Name: "W", Kind: spec.KCmd, Cores: 1, Cmd: spec.BuildCmd("W", in, o1, nil, nil, nil)},
+			&spec.Proc{Name: "CC", Kind: spec.KConcat, OutPath: "gathered.txt"},
+			&spec.Proc{Name: "Q", Kind: spec.KCmd, Cores: 1, Cmd: spec.BuildCmd("Q", in, o1, nil, nil, nil)})
+		s2.Conns = append(s2.Conns, &spec.Conn{From: "src.out", To: "W.in"}, &spec.Conn{From: "W.out", To: "CC.in"}, &spec.Conn{From: "CC.out", To: "Q.in"})
+		for r := 0; r < c.Pick(2, 6); r++ {
+			jobs = append(jobs, &job{s: s1, cfg: Cfg{Buf: 128, Procs: []int{2, 4}[r%2]}, kind: "terminate"}, &job{s: s2, cfg: Cfg{Buf: []int{1, 128}[r%2], Procs: 2}, kind: "terminate"})
+		}
 	}
 	// (a2) outputs of waiting tasks appear on disk while they wait for their slots (here: written as an
 	// additional file by a sibling task, the way a second instance of the workflow or the user would)
@@ -350,6 +371,11 @@ func c07(args []string) {
 		}
 		if res.Exit != 0 || !res.Returned {
 			c.Violation("exit-nonzero", fmt.Sprintf("contention workload exited %d: %s", res.Exit, tail(res.Output(), 600)), map[string]interface{}{"spec": j.s, "cfg": j.cfg})
+			return
+		}
+		if j.kind == "terminate" {
+			c.Count("slot_interplay_runs_completed", 1)
+			c.Nontrivial(fmt.Sprintf("terminate|%s|%v", j.s.Name, j.cfg))
 			return
 		}
 		if j.kind == "appear" {
